@@ -1,4 +1,4 @@
-import PonyVerif.Lemmas.UndoInv
+import PonyVerif.Lemmas.UndoKeys
 /-
   C13 — a modification that raises leaves the session exactly as it was.
 
@@ -177,18 +177,18 @@ theorem C13_failed_call_keeps_WF (sch : Schema) (s : Store) (op : Op) (e : Err) 
     | ok st => simp at h
     | err e' st => exact key _ hr e' st rfl
 
-/-- successful calls that register no key entries themselves — delete with cascades of any depth, every collection call
-    (assign, add, remove, clear), assignment of a reference / collection / int attribute that is not part of a key — keep the
-    session well-formed; together with `C13_failed_call_keeps_WF`: EVERY outcome of such a call does -/
-theorem C13_WF_quiet_step (sch : Schema) (s : Store) (op : Op) (hq : quiet sch op = true) (hwf : WF sch s) : WF sch (step sch s op) := by
+/-- flush and every user call except the constructor and `obj.set(**kw)` — delete with cascades of any depth, every collection call
+    (assign, add, remove, clear), every single attribute assignment INCLUDING unique / composite-key attributes — keep the session
+    well-formed, whatever their outcome (a failing one by `C13_failed_call_keeps_WF`) -/
+theorem C13_WF_covered_step (sch : Schema) (s : Store) (op : Op) (hq : covered op = true) (hwf : WF sch s) : WF sch (step sch s op) := by
   cases herr : (stepO sch s op).err with
   | some e => exact C13_failed_call_keeps_WF sch s op e hwf herr
   | none =>
     have key : ∀ st', run1 sch op { store := s } = .ok st' → WF sch st'.store :=
-      fun st' h => quiet_call_keeps op s st' hq hwf.1 hwf.2.1 hwf.2.2 h
+      fun st' h => covered_call_keeps op s st' hq hwf.1 hwf.2.1 hwf.2.2 h
     unfold step stepO at *
     cases op with
-    | flush ids => cases hq
+    | flush ids => exact flush_keeps sch ids s hwf.1 hwf.2.1 hwf.2.2
     | create ent pk vals => cases hq
     | setMany o kw => cases hq
     | set o a v =>
@@ -222,8 +222,9 @@ theorem C13_WF_quiet_step (sch : Schema) (s : Store) (op : Op) (hq : quiet sch o
       | ok st => exact key st hr
       | err e' st => simp at herr
 
-/-- NOT PROVED here (kept as a statement; `C13_WF_quiet_step` is its proved part): what is missing are the calls that register key
-    entries themselves (Entity.__init__, Entity.set, assignment of a key attribute) and flush: successful calls and flush keep the session well-formed.  Its second half (`IdxOk`: the
+/-- NOT PROVED here (kept as a statement; `C13_WF_covered_step` is its proved part): what is missing are successful Entity.__init__ and
+    Entity.set calls; Lemmas/UndoKeys.lean holds the forward specification of the index moves (`fwd_idxOkV`, `IdxOkV.of_keep`,
+    `idxOk_after_write`) that Entity.set needs: successful calls and flush keep the session well-formed.  Its second half (`IdxOk`: the
     key indexes hold exactly the current key values of live objects) is the invariant of property C11; this check evaluates
     `WF` on every state it visits, on the model (driver field `wf`) and on the real objects (engine `real_wf`). -/
 def C13_WF_invariant_full : Prop := ∀ (sch : Schema) (s : Store) (op : Op), WF sch s → WF sch (step sch s op)
@@ -256,7 +257,7 @@ example : (stepO demoSchema (run demoSchema {} demoHistory) (.delete 0)).err = s
 /-- ... after it registered undo entries (the child's reference, the reverse removal, the collection rewrite) -/
 example : (run1 demoSchema (.delete 0) { store := run demoSchema {} demoHistory }).st.trail.length = 3 := by decide
 
-/-- the guard of `C13_WF_quiet_step` is met by the refused delete above and by the collection calls -/
-example : quiet demoSchema (.delete 0) = true ∧ quiet demoSchema (.add 0 0 [1]) = true ∧ quiet demoSchema (.set 1 1 (.val none)) = true := by decide
+/-- the guard of `C13_WF_covered_step` is met by the refused delete above and by the collection calls -/
+example : covered (.delete 0) = true ∧ covered (.add 0 0 [1]) = true ∧ covered (.set 1 1 (.val none)) = true ∧ covered (.flush []) = true := by decide
 
 end PonyVerif.Props.C13
